@@ -1167,6 +1167,23 @@ def toolkit_spellings(rng, text, nrand):
         cand += list(Chem.MolToRandomSmilesVect(rd, nrand, randomSeed=rng.randrange(1, 2 ** 31)))
     except Exception:  # noqa
         pass
+    # the other toolkit's writer options: every bond explicit (`-`, `:`), every hydrogen count explicit (bracket atoms),
+    # Kekulé form; and two-digit ring-closure numbers (`%nn`) — reader branches its default output never reaches
+    n = rd.GetNumAtoms()
+    for kw in ({'allBondsExplicit': True}, {'allHsExplicit': True}, {'allBondsExplicit': True, 'allHsExplicit': True},
+               {'kekuleSmiles': True, 'allBondsExplicit': True}):
+        for i in ([rng.randrange(n) for _ in range(2)] if n else []):
+            try:
+                rk = Chem.Mol(rd)
+                if kw.get('kekuleSmiles'):
+                    Chem.Kekulize(rk, clearAromaticFlags=True)
+                cand.append(Chem.MolToSmiles(rk, rootedAtAtom=i, canonical=False, **kw))
+            except Exception:  # noqa
+                pass
+    import re
+    for t in list(cand[:3]):
+        if not re.search(r'\[[^\]]*\d', t) and '%' not in t and re.search(r'\d', t):
+            cand.append(re.sub(r'(\d)', lambda mt: '%1' + mt.group(1), t))
     cand = list(dict.fromkeys(cand))
     out = []
     for t in cand:
@@ -1190,6 +1207,10 @@ def toolkit_spellings(rng, text, nrand):
 def mark_form(t):
     """which reader branch a spelling exercises (distribution tag)"""
     import re
+    if '%' in t:
+        return 'two-digit-ring-numbers'
+    if re.search(r'[A-Za-z\]]-[A-Za-z\[]', t) or ':' in t:
+        return 'all-bonds-explicit'
     marked = {(m.start(2), m.group(2)) for m in re.finditer(r'([/\\])(\d)', t)}
     if not marked:
         return 'marks-on-chain-bonds-only'
@@ -1873,6 +1894,13 @@ def relational(ctx, mols=None, nvar=None):
                          'for atoms_order (K) and for the canonical string (R); the property domain as a whole is sampled')
     if mols is None:
         cross_toolkit(ctx)
+        # the same double judgement on a sample of the other catalogues (tetrahedral centres incl. explicit H and ring
+        # junctions, open-chain E/Z, isotopes, charged / aromatic corpus molecules) with the other toolkit's writer options
+        pool = STEREO_PAIRS + EXPLICIT_H_STEREO + RING_JUNCTION_STEREO + ez_catalogue() + ISOTOPES + ODD_GROUPS + SYMMETRIC
+        smis = molgen.corpus_smiles()
+        pool = rng.sample(pool, 25 if ctx.quick else len(pool)) + \
+            [smis[i] for i in rng.sample(range(len(smis)), 25 if ctx.quick else 400)]
+        cross_toolkit(ctx, [t for t in pool if ' ' not in t and '>' not in t], nrand=4 if ctx.quick else 20)
     certify_pairs(ctx)
     ctx.cov['programs'] = ctx.cov.get('programs', 0) + 3  # Smiles.__str__, __eq__, __hash__
 
